@@ -176,7 +176,9 @@ func NewMatcher(trigger Trigger, on string) *Matcher {
 
 // Match returns true if keyPath matches the On condition.
 func (tm *Matcher) Match(keyPath string) bool {
-	pattern := strings.Replace(tm.On, "*", "[^/]+", -1)
+	// On is a prefix of the file path in which '*' stands for one path component;
+	// everything else is literal (symbols may contain regexp metacharacters such as '.' or '+')
+	pattern := "^" + strings.ReplaceAll(regexp.QuoteMeta(tm.On), `\*`, "[^/]+")
 	matched, _ := regexp.MatchString(pattern, keyPath)
 	return matched
 }
